@@ -534,3 +534,359 @@ theorem runT_allowed (cfg : Cfg) (chunks : List (List UInt8)) : ∀ (t : TR), Op
   | cons c cs ih => intro t h; exact ih _ (feedT_allowed cfg t c h)
 
 end Mhd.ArenaBound
+
+/-! ### one arena: its size never changes (no operation of the buffer layer, no step of the composed run) -/
+
+namespace Mhd.Pool
+
+theorem allocate_size (p : Pool) (n : Nat) (fe : Bool) : (allocate p n fe).1.size = p.size := by
+  unfold allocate; simp only; repeat' split
+  all_goals rfl
+
+theorem tryAlloc_size (p : Pool) (n : Nat) : (tryAlloc p n).1.size = p.size := by
+  unfold tryAlloc; simp only; repeat' split
+  all_goals rfl
+
+theorem reallocate_size (p : Pool) (o : Option Nat) (os n : Nat) : (reallocate p o os n).1.size = p.size := by
+  unfold reallocate; simp only; repeat' split
+  all_goals first | rfl | (simp only; split <;> rfl)
+
+theorem deallocate_size (p : Pool) (o : Option Nat) (n : Nat) : (deallocate p o n).size = p.size := by
+  unfold deallocate; simp only; repeat' split
+  all_goals rfl
+
+theorem reset_size (p : Pool) (k : Option Nat) (c n : Nat) : (reset p k c n).size = p.size := rfl
+
+end Mhd.Pool
+
+namespace Mhd.ConnMem
+open Mhd.Pool
+
+theorem grow_size (c : CM) (r : Bool) : (grow c r).1.p.size = c.p.size := by
+  unfold grow
+  split
+  · rfl
+  · rename_i ns _
+    split
+    · rfl
+    · have := reallocate_size c.p c.rb c.rbSize ns
+      split
+      · rfl
+      · rename_i p' r' h; rw [h] at this; exact this
+
+theorem allocMem_size (c : CM) (n : Nat) : (allocMem c n).1.p.size = c.p.size := by
+  unfold allocMem
+  have h0 := tryAlloc_size c.p n
+  split
+  · rename_i p' off _ h; rw [h] at h0; exact h0
+  · rfl
+  · split
+    · split
+      · have h1 := reallocate_size c.p c.wb c.wbSize (c.wbSize - ‹Nat›)
+        simp only [allocate_size, h1]
+      · rfl
+    · split
+      · split
+        · have h1 := reallocate_size c.p c.rb c.rbSize (c.rbSize - ‹Nat›)
+          simp only [allocate_size, h1]
+        · rfl
+      · rfl
+
+theorem step_size (c : CM) (o : Op) : (step c o).1.p.size = c.p.size := by
+  cases o <;> simp only [step]
+  case grow r => split; rfl; exact grow_size c r
+  case recv k => split <;> rfl
+  case consume k => split; split <;> rfl; rfl
+  case shiftBack k => split; split <;> rfl; rfl
+  case bodyDrop k => split <;> rfl
+  case alloc n => exact allocMem_size c n
+  case shrinkRead =>
+    split; rfl
+    show (shrinkRead c).p.size = _
+    unfold shrinkRead
+    split; rfl
+    split; rfl
+    split
+    · exact deallocate_size _ _ _
+    · have := reallocate_size c.p (some ‹Nat›) c.rbSize c.rbOff
+      simp only [this]
+  case maxWrite =>
+    split; rfl
+    show (maxWrite c).1.p.size = _
+    unfold maxWrite
+    simp only
+    split
+    · have := reallocate_size c.p c.wb c.wbSize (c.wbSize + getFree c.p)
+      simp only
+      split <;> simp only [this]
+    · rfl
+  case wAppend k => split <;> rfl
+  case wSend k => split <;> rfl
+  case resetConn => split; exact reset_size _ _ _ _; rfl
+  case errRelease => split; rfl; split; exact deallocate_size _ _ _; rfl
+  case errReset => split; rfl; exact reset_size _ _ _ _
+
+end Mhd.ConnMem
+
+namespace Mhd.ArenaBound
+open Mhd.ConnRead Mhd.ConnMem Mhd.Req Mhd.Gen
+
+/-- the arena of the connection: its size -/
+abbrev asz (x : CR) : Nat := x.cm.p.size
+
+theorem op_size {c c' : CM} {o : Op} (h : op c o = some c') : c'.p.size = c.p.size := by
+  unfold op at h
+  have := step_size c o
+  split at h
+  · simp at h
+  · rename_i c1 r heq
+    injection h with h; subst h
+    rw [heq] at this; exact this
+
+theorem consumeTo_size {c c' : CM} {n : Nat} (h : consumeTo c n = some c') : c'.p.size = c.p.size := by
+  unfold consumeTo at h
+  split at h
+  · exact op_size h
+  · simp at h
+
+theorem allocN_size : ∀ (n : Nat) (c : CM), (allocN n c).1.p.size = c.p.size := by
+  intro n
+  induction n with
+  | zero => intro c; rfl
+  | succ n ih =>
+    intro c
+    unfold allocN
+    have := step_size c (.alloc Mhd.Gen.ConnMem.reqHeaderSize)
+    rcases hst : step c (.alloc Mhd.Gen.ConnMem.reqHeaderSize) with ⟨c', r⟩
+    rw [hst] at this
+    cases r with
+    | ptr o =>
+      cases o with
+      | some p => simp only; rw [ih]; exact this
+      | none => exact this
+    | _ => exact this
+
+theorem errorOut_size (x : CR) (k : ErrKind) : asz (errorOut x k) = asz x := by
+  unfold errorOut
+  split
+  · rfl
+  · split
+    · rename_i c h; exact op_size h
+    · rfl
+
+theorem recvBytes_size (x : CR) (e : List UInt8) : asz (recvBytes x e) = asz x := by
+  unfold recvBytes
+  split
+  · rfl
+  · rename_i c h; have := op_size h; exact this
+
+theorem afterLine_size (x : CR) (r : ReqLine) : asz (afterLine x r) = asz x := by
+  unfold afterLine
+  split
+  · exact errorOut_size _ _
+  · split
+    · rfl
+    · have := allocN_size ‹Target›.elems.length x.cm
+      split
+      · rename_i c1 heq; rw [heq] at this; rw [errorOut_size]; exact this
+      · rename_i c1 heq; rw [heq] at this; exact this
+
+theorem idleReqLine_size (x : CR) (s : RL) : asz (idleReqLine x s) = asz x := by
+  unfold idleReqLine
+  split
+  · rfl
+  · split
+    · rfl
+    · rename_i c1 h
+      have := consumeTo_size h
+      simp only
+      split
+      · rw [errorOut_size]; exact this
+      · exact this
+  · exact errorOut_size _ _
+  · split
+    · rfl
+    · rename_i c1 h
+      rw [afterLine_size]; have := consumeTo_size h; exact this
+
+theorem hdrBody_size (lvl : Int) (fs : Nat) (ft : Option Rq) (k : CM → HS → CR)
+    (hk : ∀ c s, asz (k c s) = c.p.size) (c : CM) (s0 : HS) : asz (hdrBody lvl fs ft k c s0) = c.p.size := by
+  unfold hdrBody
+  split
+  · rfl
+  · rfl
+  · exact errorOut_size _ _
+  · split
+    · rfl
+    · rename_i c1 h
+      have h1 := consumeTo_size h
+      split
+      · split
+        · exact h1
+        · rename_i c2 h2; have := (op_size h2).trans h1; exact this
+      · exact h1
+  · split
+    · rfl
+    · rename_i c1 h
+      have h1 := consumeTo_size h
+      split
+      · have := step_size c1 (.alloc Mhd.Gen.ConnMem.reqHeaderSize)
+        rcases hst : step c1 (.alloc Mhd.Gen.ConnMem.reqHeaderSize) with ⟨c2, r⟩
+        rw [hst] at this
+        cases r with
+        | ptr o =>
+          cases o with
+          | some p => simp only; rw [hk]; exact this.trans h1
+          | none => simp only; rw [errorOut_size]; exact this.trans h1
+        | _ => simp only; rw [errorOut_size]; exact this.trans h1
+      · rw [hk]; exact h1
+
+theorem hdrLoop_size (lvl : Int) (fs : Nat) (ft : Option Rq) : ∀ (n : Nat) (c : CM) (s : HS),
+    asz (hdrLoop lvl fs ft n c s) = c.p.size := by
+  intro n
+  induction n with
+  | zero => intro c s; rfl
+  | succ n ih => intro c s; unfold hdrLoop; exact hdrBody_size lvl fs ft _ ih c _
+
+theorem processBody_size (cfg : Cfg) (x : CR) (b : Body) : asz (processBody cfg x b) = asz x := by
+  unfold processBody
+  simp only
+  split
+  · rfl
+  · exact errorOut_size _ _
+  · split
+    · rfl
+    · rename_i c1 h; have := op_size h; exact this
+
+theorem idleBody_size (cfg : Cfg) (x : CR) (b : Body) : asz (idleBody cfg x b) = asz x := by
+  unfold idleBody
+  simp only
+  have h1 : asz (if x.cm.rbOff ≠ 0 then processBody cfg x b else x) = asz x := by
+    split
+    · exact processBody_size _ _ _
+    · rfl
+  generalize (if x.cm.rbOff ≠ 0 then processBody cfg x b else x) = x1 at h1 ⊢
+  split
+  · split
+    · split <;> exact h1
+    · exact h1
+  · exact h1
+
+theorem afterHeaders_size (cfg : Cfg) (x : CR) (h : Headers) (rq : Rq) : asz (afterHeaders cfg x h rq) = asz x := by
+  unfold afterHeaders
+  split
+  · rfl
+  · exact errorOut_size _ _
+  · rfl
+  · split <;> rfl
+  · rfl
+
+theorem finishRequest_size (x : CR) (buf : Bytes) (rb : Nat) : asz (finishRequest x buf rb).1 = asz x := by
+  unfold finishRequest
+  split
+  · rfl
+  · rename_i c1 h1
+    split
+    · rfl
+    · rename_i c2 h2; exact (op_size h2).trans (op_size h1)
+
+theorem idlePass_size (cfg : Cfg) (x : CR) : asz (idlePass cfg x).1 = asz x := by
+  have e1 : asz (stLine x) = asz x := by unfold stLine; split; exact idleReqLine_size _ _; rfl
+  have e2 : ∀ y, asz (stHeaders y) = asz y := by
+    intro y; unfold stHeaders; split; exact hdrLoop_size _ _ _ _ _ _; rfl
+  have e3 : ∀ y, asz (stAfter cfg y) = asz y := by
+    intro y; unfold stAfter; split; exact afterHeaders_size _ _ _ _; rfl
+  have e4 : ∀ y, asz (stBody cfg y) = asz y := by
+    intro y; unfold stBody; split; exact idleBody_size _ _ _; rfl
+  have e5 : ∀ y, asz (stFooters y) = asz y := by
+    intro y; unfold stFooters; split; exact hdrLoop_size _ _ _ _ _ _; rfl
+  have e6 : ∀ y, asz (stDone cfg y).1 = asz y := by
+    intro y; unfold stDone; split
+    · split
+      · exact finishRequest_size _ _ _
+      · rfl
+    · rfl
+  unfold idlePass
+  rw [e6, e5, e4, e3, e2, e1]
+
+theorem idleStates_size (cfg : Cfg) : ∀ (n : Nat) (x : CR), asz (idleStates cfg n x) = asz x := by
+  intro n
+  induction n with
+  | zero => intro x; rfl
+  | succ n ih =>
+    intro x
+    unfold idleStates
+    have := idlePass_size cfg x
+    split
+    · rename_i x' heq; rw [heq] at this; rw [ih]; exact this
+    · rename_i x' heq; rw [heq] at this; exact this
+
+theorem checkGrow_size (x : CR) : asz (checkGrow x) = asz x := by
+  unfold checkGrow
+  split
+  · rfl
+  · simp only
+    split
+    · rfl
+    · have := step_size x.cm (.grow (x.cm.rbOff == x.cm.rbSize))
+      rcases hst : step x.cm (.grow (x.cm.rbOff == x.cm.rbSize)) with ⟨c, r⟩
+      rw [hst] at this
+      have hns : asz (noSpaceOut { x with cm := c }) = asz x := by
+        unfold noSpaceOut
+        split
+        · split
+          · exact this
+          · rw [errorOut_size]; exact this
+        · rw [errorOut_size]; exact this
+      cases r with
+      | badOp => rfl
+      | bool b =>
+        cases b with
+        | true => exact this
+        | false => simp only; split; exact this; exact hns
+      | _ => simp only; split; exact this; exact hns
+
+theorem idle_size (cfg : Cfg) (x : CR) : asz (idle cfg x) = asz x := by
+  unfold idle
+  rw [updateEv_eq, checkGrow_size]
+  have : asz (evState (idleStates cfg (x.cm.rbOff + 2) x)) = asz (idleStates cfg (x.cm.rbOff + 2) x) := by
+    unfold evState; split <;> rfl
+  rw [this, idleStates_size]
+
+theorem feedFuel_size (cfg : Cfg) : ∀ (n : Nat) (x : CR) (bs : List UInt8), asz (feedFuel cfg n x bs) = asz x := by
+  intro n
+  induction n with
+  | zero => intro x bs; rfl
+  | succ n ih =>
+    intro x bs
+    unfold feedFuel
+    split
+    · rfl
+    · split
+      · simp only; rw [ih, idle_size, recvBytes_size]
+      · rw [ih, idle_size]
+
+theorem feed_size (cfg : Cfg) (x : CR) (c : List UInt8) : asz (feed cfg x c) = asz x := by
+  unfold feed
+  split
+  · split
+    · exact idle_size _ _
+    · rfl
+  · exact feedFuel_size _ _ _ _
+
+theorem run_size (cfg : Cfg) (chunks : List (List UInt8)) : ∀ (x : CR), asz (Mhd.ConnRead.run cfg x chunks) = asz x := by
+  induction chunks with
+  | nil => intro x; rfl
+  | cons c cs ih =>
+    intro x
+    show asz (Mhd.ConnRead.run cfg (feed cfg x c) cs) = _
+    rw [ih, feed_size]
+
+theorem init_size (allocSize poolSize inc : Nat) (lvl : Int) :
+    asz (Mhd.ConnRead.init allocSize poolSize inc lvl) = allocSize := by
+  show (Mhd.ConnMem.init allocSize poolSize inc).p.size = allocSize
+  unfold Mhd.ConnMem.init
+  simp only
+  exact Mhd.Pool.allocate_size _ _ _
+
+end Mhd.ArenaBound
